@@ -10,7 +10,8 @@ Clauses tested literally on Evolvent.GetImage / GetInverseImage / GetPreimages:
      away from its cell's faces, image(x) lies in exactly y's cell (exact integer cell arithmetic) and is its centre.
      Rounding allowance: the box->cube map divides by the side, so a coordinate error of 4*2^-52*max(|lo|,|hi|) may move
      y across a face; delta = 8*2^-52*max(|lo|,|hi|)/side*2^m + 1e-9 cell widths.
- (c) GetPreimages(y) == GetInverseImage(y) bitwise.
+ (c) GetPreimages(y) == GetInverseImage(y) bitwise; the inverse does not depend on the representation of y (double
+     array, python list, int64 array for integer points - regression for the integer-dtype truncation fix).
  (d) N = 1: both maps affine: inverse(y) = (y-lo)/(hi-lo), image(x) = lo + x(hi-lo) and both round trips, within
      1e-12 relative (relative to max(|lo|,|hi|) for y and to the conditioning max(1, max(|lo|,|hi|)/side) for x)."""
 import os
@@ -62,6 +63,15 @@ def check_y(ev, g, n, m, y, ctx, viol):
     if float(xp) != x:
         viol.append(dict(ctx, what="GetPreimages differs from GetInverseImage", y=list(y), preimages=float(xp).hex(),
                          inverse=x.hex()))
+    # the same box point in other representations (python list; integer dtype when all coordinates are integers)
+    alts = [("list", [float(v) for v in y])]
+    if all(float(v).is_integer() and abs(v) < 2 ** 53 for v in y):
+        alts.append(("int64 array", np.array([int(v) for v in y], dtype=np.int64)))
+    for name, alt in alts:
+        xa = float(ev.GetInverseImage(alt))
+        if xa != x:
+            viol.append(dict(ctx, what="inverse depends on the representation of the point (" + name + ")", y=list(y),
+                             inverse=x.hex(), inverse_alt=xa.hex()))
     sc = Fraction(x) * tot
     if not (0.0 <= x < 1.0) or sc.denominator != 1:
         viol.append(dict(ctx, what="inverse(y) is not the left end of a subinterval", y=list(y), inverse=x.hex()))
